@@ -672,6 +672,83 @@ def _subset_guards(model, rep):
                              f"'{common}'", fn.lineno)
 
 
+def _iso_shapes(model, rep):
+    """Isoparametric evaluators allocate their result as (cells, points) in
+    two sibling branches (no subset / subset).  The allocation is evaluated
+    on shape stubs for both ways of passing points - shared (d, npts) and
+    per cell (d, ncells, npts): it must be (number of cells or facets in
+    play, npts) in every case."""
+    R3 = "C10-R3"
+    cls = model.cls(ISO, "MappingIsoparametric")
+    NPT, NT_, NS, NF = (Poly.sym(x) for x in ("npts", "ncells", "nsub",
+                                              "nfacets"))
+
+    class Shaped:
+        def __init__(self, shape):
+            self.shape = shape
+
+        def skv_getattr(self, name):
+            if name == "shape":
+                return self.shape
+            raise Unsupported("stub." + name)
+
+        def skv_len(self):
+            return self.shape[0]
+    n = 0
+    for mname, sub, tab, ntab in (("Fmap", "tind", "t", NT_),
+                                  ("_J", "tind", "t", NT_),
+                                  ("bndmap", "find", "facets", NF),
+                                  ("bndJ", "find", "facets", NF)):
+        fn = cls.methods.get(mname)
+        if fn is None:
+            raise AnalysisError(f"MappingIsoparametric.{mname} not found")
+        guards = [st for st in fn.node.body if isinstance(st, ast.If)
+                  and src(st.test).replace(" ", "") == f"{sub}isNone"]
+        if len(guards) != 1:
+            raise AnalysisError(f"MappingIsoparametric.{mname}: guard "
+                                f"'{sub} is None' not found")
+        g = guards[0]
+        for branch, body, ncell in (("no subset", g.body, ntab),
+                                    ("subset", g.orelse, NS)):
+            allocs = [st for st in body if isinstance(st, ast.Assign)
+                      and isinstance(st.value, ast.Call)
+                      and src(st.value.func) in ("np.zeros", "np.empty")]
+            if len(allocs) != 1:
+                raise AnalysisError(f"MappingIsoparametric.{mname}: result "
+                                    f"allocation of the '{branch}' branch "
+                                    f"not found")
+            shp = allocs[0].value.args[0]
+            for layout, xs in (("shared points", (Poly.sym("d"), NPT)),
+                               ("per-cell points",
+                                (Poly.sym("d"), ncell, NPT))):
+                n += 1
+                env = {"X": Shaped(xs), tab: Shaped((Poly.sym("nloc"), ntab)),
+                       sub: Shaped((NS,))}
+                try:
+                    got = Interp(model).eval(shp, env, fn.module)
+                except (Unsupported, Raised) as e:
+                    raise AnalysisError(f"MappingIsoparametric.{mname}: "
+                                        f"shape outside grammar: {e}")
+                cons = f"MappingIsoparametric.{mname}:out-shape[{branch}," \
+                       f"{layout}]"
+                want = (ncell, NPT)
+                if isinstance(got, tuple) and tuple(
+                        Poly.coerce(x) for x in got) == want:
+                    rep.ok(R3, cons, f"result allocated as ({ncell}, npts)")
+                else:
+                    rep.fail(R3, fn.path, f"MappingIsoparametric.{mname}",
+                             cons,
+                             f"with {layout} and {branch} the result is "
+                             f"allocated as {tuple(str(x) for x in got)} "
+                             f"('{src(shp)}') instead of ({ncell}, npts): "
+                             f"the values do not fit (broadcast error, or a "
+                             f"silently wrong shape when there is one point "
+                             f"per cell) although the sibling branch and "
+                             f"MappingAffine accept this way of passing "
+                             f"points", allocs[0].lineno)
+    return n
+
+
 def _map_signatures(model, rep):
     R4 = "C10-R4"
     for mname, want, shift in (
@@ -918,7 +995,9 @@ def run(model: Model, rep, tier: str) -> None:
              "tables equal Refdom tables; slot matched through t2f; DF^-T "
              "and normalisation")
     rep.rule("C10-R3", "all affine evaluators slice by the subset under one "
-             "shared guard")
+             "shared guard; isoparametric evaluators allocate (cells, "
+             "points) for shared and per-cell points, with and without "
+             "subset")
     rep.rule("C10-R4", "F = A X + b, invF = invA (x - b), G = B X + c; "
              "Jacobian evaluators broadcast the same matrices")
     rep.rule("C10-R5", "iterative inverse: Newton step invDF (x - F) added "
@@ -933,10 +1012,11 @@ def run(model: Model, rep, tier: str) -> None:
     _normals_method(model, rep, refdoms, AFF, "MappingAffine")
     _normals_method(model, rep, refdoms, ISO, "MappingIsoparametric")
     _subset_guards(model, rep)
+    _iso_shapes(model, rep)
     _map_signatures(model, rep)
     rep.require_min("C10-R1", 30)
     rep.require_min("C10-R2", 30)
-    rep.require_min("C10-R3", 8)
+    rep.require_min("C10-R3", 24)
     rep.require_min("C10-R4", 9)
     rep.require_min("C10-R5", 6)
 
@@ -944,6 +1024,13 @@ def run(model: Model, rep, tier: str) -> None:
 _A, _I, _R = ("skfem/mapping/mapping_affine.py",
               "skfem/mapping/mapping_isoparametric.py", "skfem/refdom.py")
 MUTANTS = [
+    ("isoparametric map sizes its result by axis 1 of the points again",
+     (_I, "            out = np.zeros((t.shape[1], X.shape[-1]))\n"
+      "            for itr in range(t.shape[0]):\n"
+      "                phi, _ = self.elem.lbasis(X, itr)",
+      "            out = np.zeros((t.shape[1], X.shape[1]))\n"
+      "            for itr in range(t.shape[0]):\n"
+      "                phi, _ = self.elem.lbasis(X, itr)"), "C10-R3"),
     ("Newton inverse stops on the physical residual (scale dependent)",
      (_I, "            if (np.linalg.norm(dX, 1, (0, 2)) < newton_tol).all():",
       "            if (np.linalg.norm(x - F, 1, (0, 2)) < newton_tol).all():"),
